@@ -43,6 +43,30 @@ pub struct BitMachine {
     write: Vec<Frame>,
     /// Acceptable source type
     source_ty: Arc<Final>,
+    /// Maximum value taken by `next_frame_start` so far (cells in use).
+    #[cfg(feature = "verif-hooks")]
+    verif_max_cells: usize,
+    /// Maximum value taken by `read.len() + write.len()` so far (frames in use).
+    #[cfg(feature = "verif-hooks")]
+    verif_max_frames: usize,
+}
+
+#[cfg(feature = "verif-hooks")]
+impl BitMachine {
+    /// High-water mark of the number of cells in use.
+    pub fn verif_max_cells(&self) -> usize {
+        self.verif_max_cells
+    }
+
+    /// High-water mark of the number of frames (read + write) in use.
+    pub fn verif_max_frames(&self) -> usize {
+        self.verif_max_frames
+    }
+
+    /// Size of the data buffer in cells.
+    pub fn verif_capacity_cells(&self) -> usize {
+        self.data.len() * 8
+    }
 }
 
 impl BitMachine {
@@ -57,6 +81,10 @@ impl BitMachine {
             read: Vec::with_capacity(program.bounds().extra_frames + analysis::IO_EXTRA_FRAMES),
             write: Vec::with_capacity(program.bounds().extra_frames + analysis::IO_EXTRA_FRAMES),
             source_ty: program.arrow().source.clone(),
+            #[cfg(feature = "verif-hooks")]
+            verif_max_cells: 0,
+            #[cfg(feature = "verif-hooks")]
+            verif_max_frames: 0,
         })
     }
 
@@ -89,6 +117,11 @@ impl BitMachine {
 
         self.write.push(Frame::new(self.next_frame_start, len));
         self.next_frame_start += len;
+        #[cfg(feature = "verif-hooks")]
+        {
+            self.verif_max_cells = self.verif_max_cells.max(self.next_frame_start);
+            self.verif_max_frames = self.verif_max_frames.max(self.read.len() + self.write.len());
+        }
     }
 
     /// Move the active write frame to the read frame stack
